@@ -361,5 +361,5 @@ def strat_history(draw, tier):
 
 
 PARTS = [
-    Part("history", check_history, lambda tier: strat_history(tier), quick=160, thorough=3000, shrink=False, min_per_shard=2, min_nontrivial_frac=0.3),
+    Part("history", check_history, lambda tier: strat_history(tier), quick=160, thorough=3000, shrink=False, min_per_shard=2, min_nontrivial_frac=0.2),
 ]
